@@ -17,7 +17,7 @@ from .cia301 import crc16_ccitt
 
 class StrictSdoServer:
     def __init__(self, node_id=5, style="auto", seg_plan=None, blk_plan=(127,), crc=True,
-                 block_upload=True, block_download=True):
+                 block_upload=True, block_download=True, blk_size_indicated=True):
         self.rx = 0x600 + node_id
         self.tx = 0x580 + node_id
         self.store = {}              # (index, sub) -> bytes
@@ -27,6 +27,7 @@ class StrictSdoServer:
         self.crc = crc
         self.block_upload = block_upload
         self.block_download = block_download
+        self.blk_size_indicated = blk_size_indicated    # block upload initiate response with (s=1) or without size
         self.st = None
         self.violations = []         # (code, frame hex, text)
         self.frames = []             # every request seen (hex)
@@ -320,7 +321,9 @@ class StrictSdoServer:
             cc = bool(f[0] & 4)
             self.st = dict(kind="bul", phase="start", mux=mux, data=data, pos=0, blksize=blk,
                            crc=cc and self.crc, sent=0)
-            return [(self.tx, bytes([0xC2 | (4 if self.crc else 0)]) + mux + struct.pack("<L", len(data)))]
+            if self.blk_size_indicated:
+                return [(self.tx, bytes([0xC2 | (4 if self.crc else 0)]) + mux + struct.pack("<L", len(data)))]
+            return [(self.tx, bytes([0xC0 | (4 if self.crc else 0)]) + mux + bytes(4))]
         if not st or st["kind"] != "bul":
             self._viol("sequence", f, f"block upload cs={cs} outside a block upload")
             return self._abort(self._cur_mux(), 0x05040001)
